@@ -149,6 +149,14 @@ pub fn run_path(alpha: &[Req], init: &Dataset, path: &[usize]) -> Result<(Datase
                     }
                 }
                 (Ok(sum), Err(why)) => {
+                    // Requests that the SPARQL grammar itself allows and that have no effect (the empty
+                    // request = zero operations; a template whose written subject is a literal = illegal
+                    // triple skipped; a SELECT, which C17 only requires to leave the data alone) may be
+                    // refused (as Kolibrie does) or accepted as a no-op: the statement fixes neither.
+                    let tolerated = matches!(req, Req::Rejected(l, _) if matches!(*l, "empty" | "literal_subject_in_template" | "select_at_update_endpoint"));
+                    if tolerated && sum.inserted_quads == 0 && sum.deleted_quads == 0 && Some(&after) == before.as_ref() {
+                        continue;
+                    }
                     return Err(StepFail { symptom: "invalid_update_accepted", detail: format!("{:?} must be rejected ({}), but was executed: {:?}", text, why, sum) });
                 }
                 (Err(e), Ok(_)) => {
